@@ -95,7 +95,7 @@ pub enum Mut {
     XmlMinEqMax { nth: u16, all: bool },
     /// add `count` fixed-value integer records to the first prototype
     XmlAddRecords { count: u16 },
-    XmlDeepNest { depth: u16 },
+    XmlDeepNest { depth: u32 },
     /// a DOCTYPE with an internal entity of `size` bytes (optionally nested `levels` deep) that is referenced `refs`
     /// times in an attribute value and in element text
     XmlEntities { size: u16, refs: u16, levels: u8 },
@@ -230,7 +230,7 @@ pub fn gen_script(s: &mut Src) -> Script {
                 if s.chance(1, 3) {
                     Mut::XmlEntities { size: *s.pick(&[1u16, 100, 30000]), refs: *s.pick(&[1u16, 10, 255, 4096]), levels: *s.pick(&[0u8, 1, 5, 9]) }
                 } else if s.flag() {
-                    Mut::XmlDeepNest { depth: *s.pick(&[10u16, 200, 5000]) }
+                    Mut::XmlDeepNest { depth: *s.pick(&[10u32, 200, 5000, 5000, 100_000]) }
                 } else {
                     Mut::XmlDeleteChildren { nth: s.below(12) as u16 }
                 }
